@@ -135,24 +135,33 @@ func ConvertRecordValueToJsonStructure(pathes []PathExpression, row []value.Prim
 	}
 
 	for i, path := range pathes {
-		structure = addPathValueToRowStructure(structure, path.(ObjectPath), row[i], fieldLen)
+		s, err := addPathValueToRowStructure(structure, path.(ObjectPath), row[i], fieldLen)
+		if err != nil {
+			return nil, err
+		}
+		structure = s
 	}
 
 	return structure, nil
 }
 
-func addPathValueToRowStructure(parent json.Structure, path ObjectPath, val value.Primary, fieldLen int) json.Structure {
+func addPathValueToRowStructure(parent json.Structure, path ObjectPath, val value.Primary, fieldLen int) (json.Structure, error) {
 	var obj json.Object
 	if parent == nil {
 		obj = json.NewObject(fieldLen)
+	} else if o, ok := parent.(json.Object); ok {
+		obj = o
 	} else {
-		obj = parent.(json.Object)
+		return nil, errors.New(fmt.Sprintf("json path %q conflicts with a value of another column", path.Name))
 	}
 
 	if path.Child == nil {
 		obj.Add(path.Name, ParseValueToStructure(val))
 	} else {
-		valueStructure := addPathValueToRowStructure(obj.Value(path.Name), path.Child.(ObjectPath), val, fieldLen)
+		valueStructure, err := addPathValueToRowStructure(obj.Value(path.Name), path.Child.(ObjectPath), val, fieldLen)
+		if err != nil {
+			return nil, err
+		}
 		if obj.Exists(path.Name) {
 			obj.Update(path.Name, valueStructure)
 		} else {
@@ -160,7 +169,7 @@ func addPathValueToRowStructure(parent json.Structure, path ObjectPath, val valu
 		}
 	}
 
-	return obj
+	return obj, nil
 }
 
 func ParseValueToStructure(val value.Primary) json.Structure {
